@@ -121,3 +121,91 @@ def dir_points(rng, b, tol, n_in=3, outside=True):
             pts.append((s - rng.choice([Fr(1, 2) * tol, 4 * tol, Fr(1)]), 'out'))
             pts.append((e + rng.choice([Fr(1, 2) * tol, 4 * tol, Fr(1)]), 'out'))
     return pts
+
+
+# ---------------------------------------------------------------------------
+# helpers shared by the object-level checks
+
+def eval_cmd(tol, snap, tuples):
+    return 'obj_eval %s %s %d %s' % (C.qs(tol), obj_tokens(snap), len(tuples), ' '.join(C.qlist(tp) for tp in tuples))
+
+
+def parse_eval(tk):
+    out = []
+    for _ in range(tk.int()):
+        if tk.word() == 'Err':
+            out.append((tk.word(), None))
+        else:
+            out.append((None, tk.qlist()))
+    return out
+
+
+def probe_tuples(rng, snap, tol, n_random=3, with_knots=True, with_outside_periodic=True):
+    """parameter tuples for map comparisons: per direction the domain ends, every distinct knot, span mid-points and
+    a few random dyadics; combined as a few random tuples plus 'axis sweeps'"""
+    per_dir = []
+    for b in snap['bases']:
+        s, e = domain(b)
+        uniq = sorted(set(x for x in b['knots'] if s <= x <= e))
+        pts = list(uniq) if with_knots else [s, e]
+        for x, y in zip(uniq[:-1], uniq[1:]):
+            pts.append((x + y) / 2)
+        for _ in range(n_random):
+            pts.append(s + (e - s) * Fr(rng.randint(1, 255), 256))
+        if with_outside_periodic and b['periodic'] >= 0:
+            T = e - s
+            pts.append(s + T * Fr(rng.randint(1, 31), 32) + rng.choice([-2, -1, 1, 2]) * T)
+        per_dir.append(pts)
+    tuples = []
+    pd = len(per_dir)
+    base = [rng.choice(p) for p in per_dir]
+    for d in range(pd):
+        for x in per_dir[d]:
+            tp = list(base)
+            tp[d] = x
+            tuples.append(tuple(tp))
+    for _ in range(4):
+        tuples.append(tuple(rng.choice(p) for p in per_dir))
+    # exact values of the doubles (all inputs are dyadic, so this is the identity)
+    return [tuple(C.fr(float(x)) for x in tp) for tp in tuples]
+
+
+def maps_differ(vals_a, vals_b, rel=1e-9):
+    """compare two lists of (err, values) as returned by parse_eval"""
+    for i, ((ea, va), (eb, vb)) in enumerate(zip(vals_a, vals_b)):
+        if ea or eb:
+            if ea != eb:
+                return i, 'error %s vs %s' % (ea, eb)
+            continue
+        sc = max([1.0] + [abs(float(x)) for x in va])
+        for x, y in zip(va, vb):
+            if abs(float(x - y)) > rel * sc:
+                return i, 'value %s vs %s' % ([float(t) for t in va], [float(t) for t in vb])
+    return None
+
+
+def snaps_differ(a, b, rel=1e-9, what='object'):
+    """impl snapshot a vs model object b (both specs); discrete parts exactly, numbers within tolerance"""
+    if len(a['bases']) != len(b['bases']):
+        return 'pardim'
+    for d, (x, y) in enumerate(zip(a['bases'], b['bases'])):
+        if x['order'] != y['order'] or x['periodic'] != y['periodic']:
+            return 'basis %d order/periodic %s vs %s' % (d, (x['order'], x['periodic']), (y['order'], y['periodic']))
+        if len(x['knots']) != len(y['knots']):
+            return 'basis %d knot count %d vs %d' % (d, len(x['knots']), len(y['knots']))
+        sc = max([1.0] + [abs(float(t)) for t in y['knots']])
+        for i, (s, t) in enumerate(zip(x['knots'], y['knots'])):
+            if abs(float(s - t)) > rel * sc:
+                return 'basis %d knot %d: %r vs %r' % (d, i, float(s), float(t))
+    if a['dim'] != b['dim'] or a['rational'] != b['rational']:
+        return 'dim/rational'
+    if len(a['cps']) != len(b['cps']):
+        return 'number of control points %d vs %d' % (len(a['cps']), len(b['cps']))
+    sc = max([1.0] + [abs(float(t)) for p in b['cps'] for t in p])
+    for i, (p, q) in enumerate(zip(a['cps'], b['cps'])):
+        if len(p) != len(q):
+            return 'control point %d components' % i
+        for s, t in zip(p, q):
+            if abs(float(s - t)) > rel * sc:
+                return 'control point %d: %r vs %r' % (i, [float(z) for z in p], [float(z) for z in q])
+    return None
